@@ -29,6 +29,30 @@ type ElTap struct {
 	TsoCalls int
 	LastTs   uint64
 	LastErr  error
+	// engine reads of single keys (the lock object reads only its record)
+	GetCalls  int
+	LastGet   []byte
+	LastGetOK bool
+}
+
+func (t *ElTap) Get(ctx context.Context, key []byte) ([]byte, error) {
+	v, err := t.KvStorage.Get(ctx, key)
+	t.mu.Lock()
+	t.GetCalls++
+	t.LastGetOK = err == nil
+	t.LastGet = nil
+	if err == nil {
+		t.LastGet = append([]byte{}, v...)
+	}
+	t.mu.Unlock()
+	return v, err
+}
+
+// GetSnapshot returns (number of engine reads so far, bytes of the last one, whether it found the key).
+func (t *ElTap) GetSnapshot() (int, []byte, bool) {
+	t.mu.Lock()
+	defer t.mu.Unlock()
+	return t.GetCalls, t.LastGet, t.LastGetOK
 }
 
 func (t *ElTap) GetTimestampOracle(ctx context.Context) (uint64, error) {
